@@ -509,8 +509,18 @@ def check():
                     okk = ("Parameter::" + loc) in t[:40] and len(ppd) == 1 and ppd[0][2][1] == ("sym", "prop")
                     if req == "True":
                         okk = okk and ppd[0][2][2] == ms.TRUE
-                    else:
-                        okk = okk and "Option::unwrap_or" in ms.show(ppd[0][2][2]) and "False" in ms.show(ppd[0][2][2])
+                    elif okk:
+                        # the flag handed on is true exactly when the property's own `required` is Some(true) - however spelt
+                        flag = ppd[0][2][2]
+                        reqs = [t_ for t_ in ms.subterms(flag) if t_[0] == "fld" and t_[1] == ("deref", ("sym", "prop"))]
+                        if len(set(reqs)) != 1:
+                            okk = False
+                        else:
+                            rq = reqs[0]
+                            pay = ms.proj(ms.proj(rq, ("v", "Some"), E), ("f", 0), E)
+                            okk = L.expect_unsat("%s: the required flag is true exactly when the property says Some(true)" % fn,
+                                                 S.pc(p.pc) + [z3.Or(S.i(ms.disc_of(rq, E)) == 0, S.i(ms.disc_of(rq, E)) == 1),
+                                                               S.b(flag) != z3.And(S.i(ms.disc_of(rq, E)) == 1, S.b(pay))], on_sat)
                     structural("%s: a %s parameter for this very property, required %s" % (fn, loc.lower(), "always" if req else "iff the property is flagged required"), okk)
         except KeyError as exn:
             o.inconc(str(exn)[:120])
